@@ -35,7 +35,11 @@ pub fn observe(case: &Case, dir: &Path) -> Sexp {
         }
         let result = {
             let _hook = HookGuard::install(case);
-            pyxis::build(&in_dir, &out_dir, case.ps)
+            if case.api_order {
+                build_in_case_order(case, &in_dir, &out_dir)
+            } else {
+                pyxis::build(&in_dir, &out_dir, case.ps)
+            }
         };
         match result {
             Err(e) => tagged("err", [st(format!("{e:#}"))]),
@@ -63,6 +67,23 @@ pub fn observe(case: &Case, dir: &Path) -> Sexp {
         },
         _ => obs,
     }
+}
+
+/// What `pyxis::build` does, with the files added in the order the case lists them (the property quantifies over
+/// the order in which modules are added; `pyxis::build` itself always adds them in sorted order).
+fn build_in_case_order(case: &Case, in_dir: &Path, out_dir: &Path) -> anyhow::Result<()> {
+    let mut state = pyxis::semantic::SemanticState::new(case.ps);
+    for ent in &case.modules {
+        let file: &str = match ent {
+            ModEnt::Ast { file, .. } | ModEnt::Text { file, .. } => file,
+        };
+        state.add_file(in_dir, &in_dir.join(file))?;
+    }
+    let resolved = state.build()?;
+    for (key, module) in resolved.modules() {
+        pyxis::backends::rust::write_module(out_dir, key, &resolved, module)?;
+    }
+    Ok(())
 }
 
 fn write_inputs(case: &Case, in_dir: &Path, out_dir: &Path) -> anyhow::Result<()> {
